@@ -201,6 +201,20 @@ class Closure:
         self.fn, self.env = fn, env
 
 
+class DQ(list):
+    """collections.deque as far as work lists use it"""
+
+    def popleft(self):
+        return self.pop(0)
+
+    def appendleft(self, x):
+        self.insert(0, x)
+
+    def extendleft(self, xs):
+        for x in xs:
+            self.insert(0, x)
+
+
 class Partial:
     """functools.partial(<interpreted function>, *args, **kwargs)"""
 
@@ -445,6 +459,17 @@ class Interp:
                 if j < 0:
                     raise AnalysisError(f"{fn.name}: argument {p} missing")
                 env[p] = self.eval(defaults[j], env)
+        pre = set(env)
+        for a_, d_ in zip(fn.args.kwonlyargs, fn.args.kw_defaults):
+            if a_.arg in kwv:
+                env[a_.arg] = kwv.pop(a_.arg)
+            elif a_.arg in pre:
+                pass        # bound by the rule that set up the call
+            elif d_ is not None:
+                env[a_.arg] = self.eval(d_, env)
+            else:
+                raise AnalysisError(f"{fn.name}: keyword argument {a_.arg} "
+                                    "missing")
         if fn.args.vararg is not None:
             env[fn.args.vararg.arg] = tuple(args[len(params):])
         if fn.args.kwarg is not None:
@@ -549,7 +574,13 @@ class Interp:
             cur = self.eval(st.target, env)
             if self.on_inplace is not None:
                 self.on_inplace(self, st, cur)
-            v = self.binop(st, st.op, cur, self.eval(st.value, env))
+            rhs = self.eval(st.value, env)
+            if isinstance(cur, list) and isinstance(st.op, ast.Add) and \
+                    isinstance(rhs, (list, tuple)):
+                cur.extend(rhs)         # list += iterable extends in place
+                v = cur
+            else:
+                v = self.binop(st, st.op, cur, rhs)
             self.assign(st.target, v, env)
         elif isinstance(st, ast.If):
             if self.truth(st.test, self.eval(st.test, env)):
@@ -590,6 +621,22 @@ class Interp:
                     continue
             if not broke:
                 self.block(st.orelse, env)
+        elif isinstance(st, ast.With) and len(st.items) == 1 and isinstance(
+                st.items[0].context_expr, ast.Call) and ast.unparse(
+                st.items[0].context_expr.func).split(".")[-1] == "suppress" \
+                and st.items[0].optional_vars is None:
+            # with contextlib.suppress(E1, E2): <body>
+            names = [ast.unparse(a).split(".")[-1]
+                     for a in st.items[0].context_expr.args]
+            try:
+                self.block(st.body, env)
+            except Raised as r_:
+                h = ast.ExceptHandler(
+                    type=ast.Tuple(elts=[ast.Name(id=n_, ctx=ast.Load())
+                                         for n_ in names], ctx=ast.Load()),
+                    name=None, body=[])
+                if not r_.caught_by(h):
+                    raise
         elif isinstance(st, ast.Try):
             try:
                 self.block(st.body, env)
@@ -947,6 +994,9 @@ class Interp:
                 raise AnalysisError(f"** of {v!r}")
         if fname in self.calls:
             return self.calls[fname](self, e, args, kw)
+        if fname in ("deque", "collections.deque") and len(args) <= 1 and \
+                not kw:
+            return DQ(args[0]) if args else DQ()
         if fname in ("partial", "functools.partial") and args and isinstance(
                 args[0], (Closure, Bound, Partial)):
             return Partial(args[0], args[1:], kw)
@@ -956,7 +1006,8 @@ class Interp:
         if isinstance(e.func, ast.Name) and isinstance(env.get(e.func.id),
                                                        Closure):
             c = env[e.func.id]
-            return self.call_function(c.fn, args, c.env)
+            return self.call_function(c.fn, args, dict(c.env, __kwargs__=kw)
+                                      if kw else c.env)
         if isinstance(e.func, ast.Attribute):
             base = self.eval(e.func.value, env)
             if isinstance(base, Obj):
@@ -980,6 +1031,12 @@ class Interp:
             if isinstance(base, (set, frozenset)) and e.func.attr in (
                     "add", "union", "intersection", "copy", "discard"):
                 return getattr(base, e.func.attr)(*args)
+            if isinstance(base, DQ) and e.func.attr in (
+                    "popleft", "appendleft", "extendleft"):
+                try:
+                    return getattr(base, e.func.attr)(*args)
+                except IndexError:
+                    raise Raised(e, "IndexError")
             if isinstance(base, list) and e.func.attr in (
                     "append", "pop", "extend", "sort", "insert"):
                 if e.func.attr == "sort":
@@ -1086,10 +1143,16 @@ class Interp:
             fv = self.eval(e.func, env)
         except AnalysisError:
             fv = None
-        if isinstance(fv, Closure):
-            return self.call_function(fv.fn, args, fv.env)
+        if isinstance(fv, (Closure, Bound, Partial)):
+            return self.apply(fv, args, kw)
         if callable(fv) and not isinstance(fv, (Opaque, type)):
             return fv(*args, **kw)
+        if isinstance(fv, Opaque) and fv.what.startswith("class "):
+            # a class held in a variable (node_type(...), globals()[name](...)):
+            # the rule's model of calling that class by name
+            nm_ = fv.what.split(" ")[-1]
+            if nm_ in self.calls:
+                return self.calls[nm_](self, e, args, kw)
         raise AnalysisError(f"call of {fname} is not modelled")
 
 
